@@ -69,7 +69,7 @@ def ipc_part(chk, cfg, proof_ok, driver_ok, detail, thorough):
     cases = []
     for mod in (c06, c07):
         for setup, op, tail in mod.eintr_scenarios():
-            cases += ipc.eintr_cases(setup, op, tail, counts=(1, 2, 3, 4, 5, 6) if thorough else (1, 2, 6))
+            cases += ipc.eintr_cases(setup, op, tail, counts=(1, 2, 3, 4, 5, 6, 150, 1000) if thorough else (1, 2, 6, 150))
     chk.cov["ipc_eintr_cases"] = len(cases)
     R.run([ipc.prefilter(c) for c in cases], batch=20)
     return R.found
